@@ -5,7 +5,7 @@ import itertools
 
 from harness.common import cN, clist, copt, chunks, run_coq_cases
 
-MODEL_TARGETS = ['model/StreamIds.vo', 'corr/C13Corr.vo', 'corr/Harness.vo']
+MODEL_TARGETS = ['model/StreamIds.vo', 'corr/C13Corr.vo', 'corr/Harness.vo', 'model/Endpoint.vo', 'corr/EndpointCorr.vo']
 ASSUMPTIONS = [
     'StreamControl is driven only through allocate_stream/register_stream/finish_stream (as RSocketBase does)',
     'the reduced id spaces are obtained as the suite does, by lowering _maximum_stream_id after construction',
@@ -179,6 +179,7 @@ def correspond(ctx, corr, model_ok):
             corr.samples.append({'input': {k: case[k] for k in ('m', 'first', 'cur0')}, 'ops': case['ops'][:12],
                                  'impl_results': res[:12]})
         lines.append((_coq_case(case, res, cur, act), case))
+    _dups(corr, model_ok)
     if not model_ok:
         return
     shards = ['Definition cases : list case13 := [\n' + ';\n'.join(x[0] for x in ch) + '\n].'
@@ -190,6 +191,73 @@ def correspond(ctx, corr, model_ok):
             res, cur, act, _ = _impl(case)
             corr.disagreements.append({'what': 'StreamControl vs model/StreamIds.v', 'input': case,
                                        'impl': {'results': res, 'current': cur, 'active': act}})
+
+
+# ---- a request frame that re-uses the id of a stream which is still active is rejected (all 4 x 4 type pairs) ----
+REQT = ('RequestResponse', 'RequestStream', 'RequestChannel', 'RequestFnf')
+
+
+def dup_scenario(first, second, role, lenreq):
+    """peer opens stream s with `first`, then sends `second` on the same id; afterwards the original stream is used"""
+    import random
+    from harness.ep_scenarios import Scenario
+    sc = Scenario(random.Random(1), role=role, lenreq=lenreq, with_close=False, steps=0)
+    sc.desc = {'dup': [first, second, role, lenreq]}
+    sid = sc.peer_next
+    out = {'RequestResponse': ('future',), 'RequestStream': ('publisher',), 'RequestChannel': ('channel', True, True),
+           'RequestFnf': ('none',)}
+
+    def fr(t, tag):
+        f = {'t': t, 'sid': sid, 'ign': False, 'follows': False, 'md': b'', 'd': tag}
+        if t in ('RequestStream', 'RequestChannel'):
+            f['n'] = 3
+        if t == 'RequestChannel':
+            f['complete'] = False
+        return f
+    try:
+        sc._inject(fr(first, b'first'), out[first])
+        n0 = len(sc.rec.log)
+        objs0 = len(sc.rec.objs)
+        sc._inject(fr(second, b'second'), out[second])
+        after = sc.rec.log[n0:]
+        res = {'handler_called_again': any(x[0] == 'eff' and x[1] == 'handler' for x in after),
+               'new_object': len(sc.rec.objs) > objs0,
+               'answers': [x[2] for x in after if x[0] == 'eff' and x[1] == 'enq'],
+               'first_registered': first != 'RequestFnf'}
+        # the original stream still belongs to the first handler object
+        if first != 'RequestFnf':
+            h = sc.rec.ep._stream_control._streams.get(sid)
+            res['still_first'] = h is not None and getattr(h, '_verif_oid', None) == 0
+        sc.rec.settle()
+    finally:
+        sc.rec.finish()
+    return sc, res
+
+
+def dup_oracle(first, second, res):
+    if not res['first_registered']:
+        return None          # fire-and-forget registers nothing: the id is free again
+    a = res['answers']
+    ok = (len(a) == 1 and a[0]['t'] == 'Error' and a[0]['sid'] != 0 and a[0]['code'] == 0x202
+          and not res['handler_called_again'] and not res['new_object'] and res.get('still_first'))
+    return None if ok else 'request on an id in use not rejected: %r' % (res,)
+
+
+def _dups(corr, model_ok):
+    from harness import epcheck as E
+    runs = []
+    for first in REQT:
+        for second in REQT:
+            for role in ('server', 'client'):
+                sc, res = dup_scenario(first, second, role, first == second)
+                o = dup_oracle(first, second, res)
+                corr.evaluations += 1
+                corr.count('duplicate-id %s then %s' % (first, second))
+                if o:
+                    corr.oracle_failures.append({'what': o, 'dup': [first, second, role, first == second]})
+                runs.append(sc)
+    if model_ok:
+        E.trace_corr(corr, runs, 'keep_all', True, 'duplicate stream id: endpoint vs model/Endpoint.v')
 
 
 def search(ctx, budget_s):
@@ -230,6 +298,10 @@ def shrink(fc):
 
 
 def replay(obj):
+    if 'dup' in obj['case']:
+        first, second, role, lenreq = obj['case']['dup']
+        _, res = dup_scenario(first, second, role, lenreq)
+        return bool(dup_oracle(first, second, res))
     case = obj['case']['input']
     case['ops'] = [tuple(o) for o in case['ops']]
     res, cur, act, before = _impl(case)
